@@ -112,7 +112,7 @@ def boundary_clear(E, X, dmin, dmax, eps=None):
     if eps is None:
         near = fin & ((np.abs(d - dmax) < ROUNDOFF * dmax) | (np.abs(d - dmin) < ROUNDOFF * dmin))
     else:
-        near = fin & ((np.abs(d - dmax) <= eps) | (np.abs(d - dmin) <= eps))
+        near = fin & ((np.abs(d - dmax) <= eps) | ((np.abs(d - dmin) <= eps) & ~((d == 0) & (dmin == 0))))   # d == 0 == min is exact, not a near-tie
     return not bool((near & ~exact_pairs(E, X, dmin, dmax)).any())
 
 
